@@ -516,12 +516,15 @@ func main() {
 		QuickDeadline: 300e9, ThoroughDeadline: 30 * 60e9, Chunk: 8,
 		Build: func(tier string) (kit.Space, string) {
 			g := mk.NewGraph(tier)
-			depth := 2
+			// quick: depth <= 2 at every representative state. thorough: the same,
+			// plus depth <= 3 over a pruned atom set at the states of the layers
+			// that run to a fixpoint (histories of every length).
+			stateMenu := mk.C03Menu(2)
+			stateMatch := stateMenu
+			var deepState []wk.RQ
 			if tier == "thorough" {
-				depth = 3
+				deepState = append(append([]wk.RQ{}, stateMenu...), wk.QueryMenu(mk.C03AtomsDeep(), 3, mk.QueryTypes)...)
 			}
-			stateMenu := mk.C03Menu(depth)
-			stateMatch := mk.C03Menu(2)
 			cases := partA(g)
 			nA := int64(len(cases))
 			reps := 0
@@ -539,16 +542,23 @@ func main() {
 			memEvery, compactEvery, deepEvery := 5, 47, 1<<30
 			var deep []wk.RQ
 			if tier == "thorough" {
-				memEvery, compactEvery, deepEvery = 1, 7, 5
+				memEvery, compactEvery, deepEvery = 1, 11, 13
 				deep = wk.QueryMenu(staticAtomsDeep(), 3, mk.QueryTypes)
 			}
-			bound := fmt.Sprintf("part A: %d representative states/successors of [%s] x %d queries (depth <= %d over %d atoms); part B: the all-valid worlds among %d menu worlds (ID scheme rotating over 3): 6 in-memory builder configurations on every %d-th, 5 compact configurations on every %d-th, x %d queries (depth <= 2 over %d atoms)",
-				reps, g.Describe(), len(stateMenu), depth, len(mk.C03Atoms()), nB, memEvery, compactEvery, len(menuB), len(staticAtoms()))
+			bound := fmt.Sprintf("part A: %d representative states/successors of [%s] x %d queries (depth <= 2 over %d atoms)", reps, g.Describe(), len(stateMenu), len(mk.C03Atoms()))
+			if deepState != nil {
+				bound += fmt.Sprintf(", at the states of the fixpoint layers %d queries (adds depth <= 3 over %d atoms)", len(deepState), len(mk.C03AtomsDeep()))
+			}
+			bound += fmt.Sprintf("; part B: the all-valid worlds among %d menu worlds (ID scheme rotating over 3): 6 in-memory builder configurations on every %d-th, 5 compact configurations on every %d-th, x %d queries (depth <= 2 over %d atoms)",
+				nB, memEvery, compactEvery, len(menuB), len(staticAtoms()))
 			if deep != nil {
 				bound += fmt.Sprintf(" + on every %d-th world %d queries (depth <= 3 over %d atoms)", deepEvery, len(deep), len(staticAtomsDeep()))
 			}
 			return kit.FuncSpace{N: nA + nB, F: func(i int64) kit.Result {
 				if i < nA {
+					if deepState != nil && g.Layers[cases[i].layer].Depth == 0 {
+						return runStateCase(g, cases[i], deepState, stateMatch)
+					}
 					return runStateCase(g, cases[i], stateMenu, stateMatch)
 				}
 				wi := i - nA
